@@ -66,7 +66,7 @@ Definition net_wf_b : bool :=
      same_set (map snd (lookup_sorted ty (nw_type_by_end nw))) (type_nodes ty) &&
      nodup_nid (map snd (lookup_sorted ty (nw_type_by_start nw))) &&
      nodup_nid (map snd (lookup_sorted ty (nw_type_by_end nw))) &&
-     forallb (fun n => negb (nid_rank n =? 0) || (0 <=? nid_idx n)) (type_nodes ty))
+     forallb (fun n => (negb (nid_rank n =? 0) || (0 <=? nid_idx n)) && (nid_idx n <=? 65535)) (type_nodes ty))
     (type_ids nw).
 End Spec.
 
@@ -100,3 +100,9 @@ Definition required_capped (nw : network) (n : node_id) : Z :=
   match maximal_formation_count_for nw n with Some l => Z.min req l | None => req end.
 Definition max_vehicles (nw : network) : Z :=
   z_sum (map (required_capped nw) (all_service_nodes nw)) + z_sum (map (track_count nw) (nw_maint nw)).
+
+(* the overflow depot can host every vehicle, for every type *)
+Definition overflow_ok_b (nw : network) : bool :=
+  let '(od, _, _) := nw_overflow nw in
+  (max_vehicles nw <=? total_capacity_of nw od) &&
+  forallb (fun ty => max_vehicles nw <=? capacity_of nw od ty) (type_ids nw).
